@@ -30,10 +30,12 @@ import (
 	"sort"
 	"strings"
 	"sync"
+	"sync/atomic"
 	"testing"
 	"time"
 
 	pikoclient "github.com/andydunstall/piko/client"
+	pkggossip "github.com/andydunstall/piko/pkg/gossip"
 	"github.com/andydunstall/piko/pkg/log"
 	"github.com/andydunstall/piko/server/config"
 )
@@ -718,8 +720,47 @@ func vhnlRun(sc vhnlScenario) (obs vhnlObs) {
 		panic("cluster did not form")
 	}
 
+	// ---- a live cluster member whose gossip stream port accepts connections and then never answers (a frozen process, a
+	// partition after the TCP handshake): whoever sends it a leave announcement waits for an acknowledgement that never comes
+	if sc.Ghost == "stalled" {
+		sln, err := net.Listen("tcp", "127.0.0.1:0")
+		if err != nil {
+			panic(err)
+		}
+		pln, err := net.ListenPacket("udp", sln.Addr().String())
+		if err != nil {
+			panic(err)
+		}
+		st := &vhnlStallListener{Listener: sln}
+		gconf := &pkggossip.Config{BindAddr: sln.Addr().String(), AdvertiseAddr: sln.Addr().String(),
+			Interval: time.Duration(sc.GossipMs) * time.Millisecond, MaxPacketSize: 1400}
+		g := pkggossip.New("stalled", gconf, st, pln, vhnlNopWatcher{}, log.NewNopLogger())
+		defer g.Close()
+		if _, err := g.Join(append([]string(nil), gossipAddrs...)); err != nil {
+			panic("stalled member could not join: " + err.Error())
+		}
+		if !vhnlUntil(bound, func() bool {
+			for _, a := range nodes {
+				ok := false
+				for _, p := range a.livePeers() {
+					if p == "stalled" {
+						ok = true
+					}
+				}
+				if !ok {
+					return false
+				}
+			}
+			return true
+		}) {
+			panic("the stalled member was not learned as live")
+		}
+		st.stall.Store(true)
+		obs.Notes = append(obs.Notes, "a live gossip member whose stream port accepts and never answers")
+	}
+
 	// ---- an earlier departure that everybody still remembers
-	if sc.Ghost != "" {
+	if sc.Ghost != "" && sc.Ghost != "stalled" {
 		ghost := vhnlStartNode("ghost", append([]string(nil), gossipAddrs...), sc)
 		if !vhnlUntil(bound, func() bool {
 			for _, a := range nodes {
@@ -1162,3 +1203,36 @@ func TestVerifHarness_NodeLoss(t *testing.T) {
 		t.Fatal(err)
 	}
 }
+
+// a stream listener that, once told to stall, parks every accepted connection: the peer is connected and hears nothing
+type vhnlStallListener struct {
+	net.Listener
+	stall  atomic.Bool
+	mu     sync.Mutex
+	parked []net.Conn
+}
+
+func (l *vhnlStallListener) Accept() (net.Conn, error) {
+	for {
+		c, err := l.Listener.Accept()
+		if err != nil {
+			return nil, err
+		}
+		if !l.stall.Load() {
+			return c, nil
+		}
+		l.mu.Lock()
+		l.parked = append(l.parked, c)
+		l.mu.Unlock()
+	}
+}
+
+type vhnlNopWatcher struct{}
+
+func (vhnlNopWatcher) OnJoin(string)                   {}
+func (vhnlNopWatcher) OnLeave(string)                  {}
+func (vhnlNopWatcher) OnReachable(string)              {}
+func (vhnlNopWatcher) OnUnreachable(string)            {}
+func (vhnlNopWatcher) OnUpsertKey(string, string, string) {}
+func (vhnlNopWatcher) OnDeleteKey(string, string)      {}
+func (vhnlNopWatcher) OnExpired(string)                {}
